@@ -254,6 +254,36 @@ var ops = []opdef{
 	{"inew", "raw", func(a, _ *big.Int) string { return sdk.NewIntFromBigInt(new(big.Int).Set(a)).String() }},
 	{"t2p", "i", func(a, _ *big.Int) string { return fmt.Sprint(sdk.TokensToConsensusPower(mkInt(a))) }},
 	{"p2t", "i64", func(a, _ *big.Int) string { return sdk.TokensFromConsensusPower(a.Int64()).String() }},
+	// the int64-operand variants and the comparisons
+	{"iaddraw", "i6", func(a, b *big.Int) string { return mkInt(a).AddRaw(b.Int64()).String() }},
+	{"isubraw", "i6", func(a, b *big.Int) string { return mkInt(a).SubRaw(b.Int64()).String() }},
+	{"imulraw", "i6", func(a, b *big.Int) string { return mkInt(a).MulRaw(b.Int64()).String() }},
+	{"iquoraw", "i6", func(a, b *big.Int) string { return mkInt(a).QuoRaw(b.Int64()).String() }},
+	{"imodraw", "i6", func(a, b *big.Int) string { return mkInt(a).ModRaw(b.Int64()).String() }},
+	{"igt", "ii", func(a, b *big.Int) string { return b2s(mkInt(a).GT(mkInt(b))) }},
+	{"igte", "ii", func(a, b *big.Int) string { return b2s(mkInt(a).GTE(mkInt(b))) }},
+	{"ilt", "ii", func(a, b *big.Int) string { return b2s(mkInt(a).LT(mkInt(b))) }},
+	{"ilte", "ii", func(a, b *big.Int) string { return b2s(mkInt(a).LTE(mkInt(b))) }},
+	{"ieq", "ii", func(a, b *big.Int) string { return b2s(mkInt(a).Equal(mkInt(b))) }},
+	{"isign", "i", func(a, _ *big.Int) string { return fmt.Sprint(mkInt(a).Sign()) }},
+	// the shared constants must stay what they are whatever is decoded into a value obtained from them
+	{"alias", "raw", func(a, _ *big.Int) string {
+		js := []byte(`"` + a.String() + `"`)
+		zi, oi, zu, ou := sdk.ZeroInt(), sdk.OneInt(), sdk.ZeroUint(), sdk.OneUint()
+		_ = zi.UnmarshalJSON(js)
+		_ = oi.UnmarshalJSON(js)
+		_ = zu.UnmarshalJSON(js)
+		_ = ou.UnmarshalJSON(js)
+		zi2, oi2 := sdk.ZeroInt(), sdk.OneInt()
+		_ = zi2.UnmarshalAmino(a.String())
+		_ = oi2.UnmarshalAmino(a.String())
+		zd, od := sdk.ZeroDec(), sdk.OneDec()
+		_ = zd.UnmarshalJSON([]byte(`"` + new(big.Int).Abs(a).String() + `.5"`))
+		_ = od.UnmarshalJSON([]byte(`"` + new(big.Int).Abs(a).String() + `.5"`))
+		return sdk.ZeroInt().String() + "," + sdk.OneInt().String() + "," + sdk.ZeroUint().String() + "," + sdk.OneUint().String() + "," +
+			sdk.ZeroDec().Int.String() + "," + sdk.OneDec().Int.String() + "," + sdk.SmallestDec().Int.String() + "," +
+			sdk.NewDec(7).Ceil().Int.String() + "," + sdk.NewInt(0).String()
+	}},
 	{"ijson", "raw", func(a, _ *big.Int) string {
 		var i sdk.Int
 		if err := i.UnmarshalJSON([]byte(`"` + a.String() + `"`)); err != nil {
@@ -449,6 +479,9 @@ func main() {
 			continue
 		}
 		o := ops[r.Intn(len(ops))]
+		for o.name == "alias" { // run at the very end: should a shared constant be damaged, everything after it would be too
+			o = ops[r.Intn(len(ops))]
+		}
 		var a, b *big.Int
 		switch o.kind {
 		case "ii":
@@ -465,6 +498,9 @@ func main() {
 				a = new(big.Int).Mul(pow2(63), pow10(6))
 				a.Add(a, big.NewInt(int64(r.Intn(5)-2)))
 			}
+		case "i6":
+			a = randInt(r)
+			b = new(big.Int).SetInt64([]int64{-9223372036854775808, 9223372036854775807, -1, 0, 1, -9223372036854775807, 2, int64(r.U64()), int64(r.Intn(1000)) - 500}[r.Intn(9)])
 		case "i64":
 			a = new(big.Int).SetInt64(int64(r.U64()))
 			if r.Bool() {
@@ -483,6 +519,22 @@ func main() {
 			}
 			if o.name == "dquoru" && r.Chance(1, 3) {
 				a, b = quoRuHazard(r)
+			}
+			if (o.name == "dquo" || o.name == "dquoru" || o.name == "dquot") && r.Chance(1, 5) {
+				// a quotient a hair (less than 10^-18 of a unit in the last place) away from a multiple of 10^-18, on either
+				// side and with either sign: b = m (an integer above 10^18), a = (k*m + d) * 10^-18, so a/b = k*10^-18 + d/(m*10^18):
+				// decimals 19..36 of the exact quotient are all 9s (d < 0) or all 0s followed by a digit (d > 0)
+				m := new(big.Int).Mul(pow10(18), big.NewInt(int64(1+r.Intn(100))))
+				m.Add(m, big.NewInt(int64(r.Intn(1000))))
+				b = new(big.Int).Mul(m, P)
+				a = new(big.Int).Mul(big.NewInt(int64(1+r.Intn(1000))), m)
+				a.Add(a, big.NewInt(int64([]int{-2, -1, 1, 2}[r.Intn(4)])))
+				if r.Bool() {
+					a.Neg(a)
+				}
+				if r.Chance(1, 3) {
+					b.Neg(b)
+				}
 			}
 			if (o.name == "dquo" || o.name == "dquoru" || o.name == "dquot") && r.Chance(1, 4) {
 				// quotients that are exact ties or exact at 18 digits
@@ -510,6 +562,18 @@ func main() {
 			res = "M!" + res
 		}
 		emit(o.name, args, res)
+	}
+	for _, o := range ops {
+		if o.name != "alias" {
+			continue
+		}
+		for j := 0; j < 40; j++ {
+			a := randBig(r, 200)
+			if j == 0 {
+				a = big.NewInt(5)
+			}
+			emit(o.name, []string{a.String()}, try(func() string { return o.f(a, nil) }))
+		}
 	}
 	js, _ := json.MarshalIndent(stats, "", " ")
 	_ = os.WriteFile(*out+"/num.stats.json", js, 0644)
